@@ -144,39 +144,75 @@ def harness(cfg, nprior, npieces):
 
 
 def levy_harness(cfg, split):
-    """Davie / Foster: conditional mean and variance of A given (W, H) on a stored piece"""
+    """Davie / Foster: conditional mean and variance of A given (W, H) on a stored piece (split False/True), and of a query
+    answered by MERGING two stored pieces (split == 'merge'): given the pieces' (W_k, H_k) the mean must be
+    sum_k (H_k W_k^T - W_k H_k^T) + 1/2 (W_1 W_2^T - W_2 W_1^T), the variance the sum of the pieces' variances, and A
+    antisymmetric"""
     c = dict(B.DEFAULT); c.update(cfg)
     size = tuple(c['size'])
     m = size[-1]
 
+    def parts(r, ln):
+        W, U, A = r
+        Ws = W.sym.reshape(-1, m); Us = U.sym.reshape(-1, m); As = A.sym.reshape(-1, m, m)
+        Hs = np.empty_like(Ws)
+        for idx in np.ndindex(*Ws.shape):
+            Hs[idx] = Us[idx] / ln - Ws[idx] / lift(2)
+        return Ws, Hs, As
+
+    def want_var(ln, Hs, b, i, j):
+        h2 = ln * ln
+        if c['levy'] == 'davie':
+            return h2 / lift(12)
+        return h2 / lift(20) + ln / lift(5) * (Hs[b, i] * Hs[b, i] + Hs[b, j] * Hs[b, j])
+
     def h(E):
         try:
             bm, top, lo, hi = B.make(E, cfg)
-            if split:
-                x = E.input('x', lo.v + (hi.v - lo.v) / 3)
-                E.assume((x > lo) & (x < hi))
-                p, q = lo, x
+            pieces = []
+            if split == 'merge':
+                x = E.input('x', lo.v + (hi.v - lo.v) / 2)
+                s_ = E.input('s', lo.v + (hi.v - lo.v) / 4); t_ = E.input('t', lo.v + (hi.v - lo.v) * 3 / 4)
+                E.assume((s_ > lo) & (s_ < x) & (x < t_) & (t_ < hi))
+                bm(lo, x)                                  # history: the tree is split at x
+                p, q = s_, t_
+                tot = bm(p, q, return_U=True, return_A=True)
+                for a_, b_ in ((s_, x), (x, t_)):
+                    r = bm(a_, b_, return_U=True, return_A=True)
+                    pieces.append((b_.n - a_.n,) + parts(r, b_.n - a_.n))
+                Ws, Hs, As = parts(tot, q.n - p.n)
             else:
-                p, q = lo, hi
-            W, U, A = bm(p, q, return_U=True, return_A=True)
-            ln = q.n - p.n
-            Ws = W.sym.reshape(-1, m); Us = U.sym.reshape(-1, m); As = A.sym.reshape(-1, m, m)
-            Hs = np.empty_like(Ws)
-            for idx in np.ndindex(*Ws.shape):
-                Hs[idx] = Us[idx] / ln - Ws[idx] / lift(2)
+                if split:
+                    x = E.input('x', lo.v + (hi.v - lo.v) / 3)
+                    E.assume((x > lo) & (x < hi))
+                    p, q = lo, x
+                else:
+                    p, q = lo, hi
+                Ws, Hs, As = parts(bm(p, q, return_U=True, return_A=True), q.n - p.n)
+                pieces.append((q.n - p.n, Ws, Hs, As))
             for b in range(As.shape[0]):
                 for i in range(m):
+                    if split == 'merge':
+                        B.prove_eq(E, f'A-diagonal-zero[{b},{i}]', As[b, i, i], dag.ZERO)
                     for j in range(m):
                         if i == j:
                             continue
+                        if split == 'merge' and i < j:
+                            B.prove_eq(E, f'A-antisymmetric[{b},{i},{j}]', As[b, i, j], dag._neg(As[b, j, i]))
                         sup = dag.support(As[b, i, j])
                         lev = {v for v in sup if is_levy_noise(v, size)}
                         try:
                             lf, const = dag.linear_form(As[b, i, j], lev)
                         except ValueError as ex:
                             E.fail('levy-linear', 'concrete', str(ex)); return
-                        # conditional mean given (W,H): the part free of Levy noise
-                        B.prove_eq(E, f'A-cond-mean[{b},{i},{j}]', const, Hs[b, i] * Ws[b, j] - Ws[b, i] * Hs[b, j])
+                        # conditional mean given the pieces' (W,H): the part free of Levy noise
+                        mean = dag.ZERO
+                        for ln, W_, H_, _ in pieces:
+                            mean = dag._add(mean, H_[b, i] * W_[b, j] - W_[b, i] * H_[b, j])
+                        if len(pieces) == 2:
+                            W1, W2 = pieces[0][1], pieces[1][1]
+                            mean = dag._add(mean, (W1[b, i] * W2[b, j] - W2[b, i] * W1[b, j]) / lift(2))
+                        B.prove_eq(E, f'A-cond-mean[{b},{i},{j}]', const, mean)
                         # each element driven by its own noise pair only
                         own = {nm for nm in lev if nm.endswith(f'_{b}_{i}_{j}') or nm.endswith(f'_{b}_{j}_{i}')}
                         if set(lf) - own:
@@ -184,11 +220,9 @@ def levy_harness(cfg, split):
                         var = dag.ZERO
                         for k, cf in lf.items():
                             var = dag._add(var, dag._mul(cf, cf))
-                        h2 = ln * ln
-                        if c['levy'] == 'davie':
-                            want = h2 / lift(12)
-                        else:
-                            want = h2 / lift(20) + ln / lift(5) * (Hs[b, i] * Hs[b, i] + Hs[b, j] * Hs[b, j])
+                        want = dag.ZERO
+                        for ln, W_, H_, _ in pieces:
+                            want = dag._add(want, want_var(ln, H_, b, i, j))
                         B.prove_eq(E, f'A-cond-var[{c["levy"]}]', var, want)
         except (Inconclusive, Unsupported):
             raise
@@ -270,6 +304,8 @@ def tasks_for(tier):
         ('levy', dict(levy='foster', size=(1, 2)), False, None, mp, to),
         ('levy', dict(levy='davie', size=(1, 2), sym_ends=True), True, None, mp, to),
         ('levy', dict(levy='foster', size=(2, 2), sym_ends=True), True, None, mp, to),
+        ('levy', dict(levy='davie', size=(1, 2)), 'merge', None, mp, to),
+        ('levy', dict(levy='foster', size=(1, 2)), 'merge', None, mp, to),
     ]
     if not q:
         T += [
@@ -423,6 +459,38 @@ def replay(data):
                 res = bm(t0, t1, **q); W = res[0] if have_H else res
                 if not torch.equal(W, W0):
                     bad.append('supplied W not returned over the whole interval')
+        elif r['a'] == 'merge':
+            x = inp.get('x', t0 + (t1 - t0) / 2); s_ = inp.get('s', t0 + (t1 - t0) / 4); t_ = inp.get('t', t0 + (t1 - t0) * 3 / 4)
+            if not (t0 < s_ < x < t_ < t1):
+                x, s_, t_ = t0 + (t1 - t0) / 2, t0 + (t1 - t0) / 4, t0 + (t1 - t0) * 3 / 4
+            bm(t0, x)
+            W, U, A = bm(s_, t_, return_U=True, return_A=True)
+            ps = []
+            for a_, b_ in ((s_, x), (x, t_)):
+                Wk, Uk, Ak = bm(a_, b_, return_U=True, return_A=True)
+                ps.append((b_ - a_, Wk, Uk / (b_ - a_) - Wk / 2))
+            asym = float((A + A.transpose(-1, -2)).abs().max())
+            if asym > 1e-12:
+                bad.append(f'merged A is not antisymmetric (max |A + A^T| = {asym:.3g})')
+            mean = sum(Hk.unsqueeze(-1) * Wk.unsqueeze(-2) - Wk.unsqueeze(-1) * Hk.unsqueeze(-2) for _, Wk, Hk in ps)
+            W1, W2 = ps[0][1], ps[1][1]
+            mean = mean + 0.5 * (W1.unsqueeze(-1) * W2.unsqueeze(-2) - W2.unsqueeze(-1) * W1.unsqueeze(-2))
+            R = A - mean
+            m = size[-1]
+            for i in range(m):
+                for j in range(m):
+                    if i == j:
+                        continue
+                    rr = R[..., i, j].reshape(K, -1)[:, 0]
+                    want = 0
+                    for hk, Wk, Hk in ps:
+                        Hi = Hk[..., i].reshape(K, -1)[:, 0]; Hj = Hk[..., j].reshape(K, -1)[:, 0]
+                        want = want + (hk * hk / 12 + 0 * Hi if levy == 'davie' else hk * hk / 20 + hk / 5 * (Hi ** 2 + Hj ** 2))
+                    ratio = float((rr ** 2).mean() / want.mean())
+                    if abs(ratio - 1) > 0.03:
+                        bad.append(f'Var(merged A[{i},{j}] | pieces) / prescribed = {ratio:.4f}')
+                    if abs(float(rr.mean())) > 8 * float(want.mean()) ** 0.5 / K ** 0.5:
+                        bad.append(f'conditional mean of merged A[{i},{j}] off by {float(rr.mean()):.3g}')
         else:
             p, qq = (t0, inp['x']) if r['a'] else (t0, t1)
             W, U, A = bm(p, qq, return_U=True, return_A=True)
